@@ -319,9 +319,12 @@ def run_table_property(run, tier: str, verdict_kinds, budgets=None, parts=("mc",
         run.notes["dumped_edges"] = len(edges)
     if "edges" in parts:
         sel = edges
-        if b["edge_sample"] and len(edges) > b["edge_sample"]:
+        if b.get("ops"):
+            focus = [e for e in edges if e["op"]["op"] in set(b["ops"])]
+            sel = focus or edges
+        if b["edge_sample"] and len(sel) > b["edge_sample"]:
             rng = random.Random(seed)
-            sel = rng.sample(edges, b["edge_sample"])
+            sel = rng.sample(sel, b["edge_sample"])
         n, mism = replay_edges(sel, reads, seed=seed)
         run.count(n)
         run.validated(n)
@@ -340,7 +343,7 @@ def run_table_property(run, tier: str, verdict_kinds, budgets=None, parts=("mc",
         take(mism, "walk")
     if "traces" in parts:
         nt, steps = b["traces"]
-        traces = td.generate(nt, seed, steps)
+        traces = td.generate(nt, seed, steps, ops=b.get("ops"))
         res, verdicts = td.validate(traces)
         run.add_tlc("GridTrace validation of recorded histories", res)
         if verdicts is None:
